@@ -36,6 +36,7 @@ type chanProc struct {
 }
 
 type procNet struct {
+	Named map[string]string // channel key -> named function started with `go f(…, ch, …)`
 	FI    *core.FuncInfo
 	Procs []*chanProc
 	Made  map[string]token.Pos // channels created in this function
@@ -70,7 +71,7 @@ func (pr *chanProc) key(info *types.Info, e ast.Expr) string {
 
 func buildProcNet(p *core.Prog, fi *core.FuncInfo) *procNet {
 	info := fi.Pkg.TypesInfo
-	net := &procNet{FI: fi, Made: map[string]token.Pos{}, Ret: map[string]bool{}}
+	net := &procNet{FI: fi, Made: map[string]token.Pos{}, Ret: map[string]bool{}, Named: map[string]string{}}
 	newProc := func(lit *ast.FuncLit, name string) *chanProc {
 		return &chanProc{Lit: lit, Name: name, Sends: map[string]token.Pos{}, Closes: map[string]token.Pos{}, ClosesOK: map[string]bool{},
 			Ranges: map[string]token.Pos{}, Recvs: map[string]token.Pos{}, Early: map[string]token.Pos{}, Waits: map[string]bool{}, bind: map[types.Object]string{}}
@@ -93,6 +94,15 @@ func buildProcNet(p *core.Prog, fi *core.FuncInfo) *procNet {
 				discover(s.Body, parent, true)
 				return false
 			case *ast.GoStmt:
+				if _, isLit := s.Call.Fun.(*ast.FuncLit); !isLit {
+					if fn := core.CalleeFunc(info, s.Call); fn != nil {
+						for _, a := range s.Call.Args {
+							if isChanType(info.TypeOf(a)) {
+								net.Named[parent.key(info, a)] = fn.Name()
+							}
+						}
+					}
+				}
 				if lit, ok := s.Call.Fun.(*ast.FuncLit); ok {
 					pr := newProc(lit, fmt.Sprintf("go#%d", len(net.Procs)))
 					pr.Multi = inLoop
@@ -437,6 +447,10 @@ func checkNet(p *core.Prog, res *core.Result, net *procNet, rule string, outputs
 				closers = append(closers, pr)
 			}
 		}
+		if fn, ok := net.Named[k]; ok {
+			res.OKTrivial(rule, key, p.Pos(net.FI.Decl.Pos()), "produced and closed by the named goroutine "+fn+" (checked by the producer rule)")
+			continue
+		}
 		switch {
 		case len(closers) == 0 && len(senders) == 0:
 			res.OKTrivial(rule, key, p.Pos(net.FI.Decl.Pos()), "channel is neither produced nor closed here (handed to a callee)")
@@ -506,6 +520,9 @@ func checkNet(p *core.Prog, res *core.Result, net *procNet, rule string, outputs
 	for _, k := range ks {
 		n := 0
 		for _, pr := range net.Procs {
+			if strings.HasSuffix(k, "[*]") && pr.Multi {
+				continue // one consumer per element of the family
+			}
 			if _, ok := pr.Ranges[k]; ok {
 				n++
 			} else if _, ok := pr.Recvs[k]; ok {
